@@ -56,7 +56,7 @@ class MinimizerScipyOptimize(MinimizerBase):
         if self._par_bounds is None:
             self._save_state_dict["parameter_bounds"] = self._par_bounds
         else:
-            self._save_state_dict["parameter_bounds"] = np.array(self._par_bounds)
+            self._save_state_dict["parameter_bounds"] = list(self._par_bounds)  # a list of (low, high) tuples, entries may be None
         self._save_state_dict["function_value"] = self._fval
         self._save_state_dict["par_fixed"] = np.array(self._par_fixed)
         self._save_state_dict["opt_result"] = self._opt_result
@@ -71,7 +71,7 @@ class MinimizerScipyOptimize(MinimizerBase):
             self._par_err = np.array(self._par_err)
         self._par_bounds = self._save_state_dict["parameter_bounds"]
         if self._par_bounds is not None:
-            self._par_bounds = np.array(self._par_bounds)
+            self._par_bounds = list(self._par_bounds)
         self._fval = self._save_state_dict["function_value"]
         self._par_fixed = np.array(self._save_state_dict["par_fixed"])
         self._opt_result = self._save_state_dict["opt_result"]
